@@ -134,18 +134,18 @@ Theorem C06_K4_refuted : untypable_witness k4_toks has_chain_early_else = true.
 Proof. exact K4_untypable. Qed.
 Print Assumptions C06_K4_refuted.
 
-(* inside the class the property excludes (bare `;;`): an else-chain whose final
-   else is `;;` -- the chain's join entry is the first arm's own entry, so an arm
-   that runs is re-entered forever, one operand deeper at every turn (known
-   finding C06-K5; same root cause as C05-K1 / C20-K1: the rule that skips a
-   repeated EndExpression) *)
-Theorem C06_K5_refuted :
-  k5_class = true /\
-  pjump k5_prog 2 = pjump k5_prog 1 /\ pjump k5_prog 1 = Some 3 /\
-  match infer_depths k5_prog with None => true | Some _ => false end = true /\
-  path_ok k5_prog k5_path = true.
-Proof. exact K5_loop. Qed.
-Print Assumptions C06_K5_refuted.
+(* regression (former finding C06-K5, inside the class the property excludes):
+   `1 ?> 2 |> ;;` -- before commit b7aaffe the chain's join entry was the arm's own
+   entry and an arm that ran was re-entered forever; now the join names an
+   EndExpression of its own: the path through the arm ends the expression *)
+Theorem C06_K5_repaired :
+  pg_instrs k5_prog = [(I_Put, OData 0); (I_JumpIfTrue, ONum 1); (I_EndExpression, ONone); (I_EndExpression, ONone);
+                       (I_Put, OData 2); (I_JumpTo, ONum 2)] /\
+  pg_jumps k5_prog = [0; 4; 3] /\
+  path_ok k5_prog [mkA 0 0 0 []; mkA 1 1 0 []; mkA 4 0 0 []; mkA 5 1 0 []; mkA 3 1 0 []] = true /\
+  asteps k5_prog (mkA 3 1 0 []) = [AHalt 0 0].
+Proof. exact K5_repaired. Qed.
+Print Assumptions C06_K5_repaired.
 
 (* non-vacuity: a reapply loop inside an applied expression with a conditional
    and an else is accepted, outside every class, and typed; its loop head is
